@@ -70,39 +70,46 @@ theorem compile_correct_running (sem : Sem V) (env : Env V) (lit : Nat → V) (h
 
 /-! ### the hypothesis `NegOk` for what the real tables produce -/
 
-theorem pairsOk_sound (sem : Sem V) (pairs : List (String × String))
-    (hp : ∀ p ∈ pairs, ∀ x y, sem.cond p.2 [x, y] = !sem.cond p.1 [x, y]) :
+theorem pairsOk_sound (sem : Sem V) (pairs : List (String × String × Nat))
+    (hp : ∀ p ∈ pairs, ∀ vals : List V, vals.length = p.2.2 → sem.cond p.2.1 vals = !sem.cond p.1 vals) :
     ∀ s : Stmt V, pairsOk pairs s = true → NegOk sem s := by
   intro s
   induction s with
   | seq p q ihp ihq =>
     intro h; simp only [pairsOk, Bool.and_eq_true] at h; exact ⟨ihp h.1, ihq h.2⟩
-  | ite c neg a b p q ihp ihq =>
+  | ite c neg args p q ihp ihq =>
     intro h; simp only [pairsOk, Bool.and_eq_true, List.contains_iff_mem] at h
-    exact ⟨hp (c, neg) h.1.1, ihp h.1.2, ihq h.2⟩
-  | ifThen c neg a b p ihp =>
+    exact ⟨hp (c, neg, args.length) h.1.1, ihp h.1.2, ihq h.2⟩
+  | ifThen c neg args p ihp =>
     intro h; simp only [pairsOk, Bool.and_eq_true, List.contains_iff_mem] at h
-    exact ⟨hp (c, neg) h.1, ihp h.2⟩
-  | «while» c neg a b body ih =>
+    exact ⟨hp (c, neg, args.length) h.1, ihp h.2⟩
+  | «while» c neg args body ih =>
     intro h; simp only [pairsOk, Bool.and_eq_true, List.contains_iff_mem] at h
-    exact ⟨hp (c, neg) h.1, ih h.2⟩
+    exact ⟨hp (c, neg, args.length) h.1, ih h.2⟩
   | loop body ih => intro h; exact ih h
   | _ => intro _; trivial
 
-/-- a value semantics on a linear order whose conditions mean what `PV.Props.C01.icCond` says -/
-def LinCond (sem : Sem Int) : Prop := ∀ c a b, sem.cond c [a, b] = (PV.Props.C01.icCond c a b).getD false
+/-- a value semantics on a linear order whose conditions mean what `PV.Props.C01.icCond` says (two operands), and whose
+    one-operand conditions compare with zero -/
+def LinCond (sem : Sem Int) : Prop :=
+  (∀ c a b, sem.cond c [a, b] = (PV.Props.C01.icCond c a b).getD false) ∧
+  (∀ a, sem.cond "eqz" [a] = decide (a = 0)) ∧ (∀ a, sem.cond "nez" [a] = decide (a ≠ 0))
 
-/-- **the suffix pairs the regenerated tables yield negate each other** (plain and under `not`) -/
+/-- **the suffix pairs the regenerated tables yield negate each other** (plain and under `not`; `if x` / `if not x`) -/
 theorem real_pairs_negate (sem : Sem Int) (h : LinCond sem) :
-    ∀ p ∈ PV.Flatten.branchPairs, ∀ x y, sem.cond p.2 [x, y] = !sem.cond p.1 [x, y] := by
-  have e : PV.Flatten.branchPairs = [("eq", "ne"), ("ne", "eq"), ("lt", "ge"), ("le", "gt"), ("gt", "le"), ("ge", "lt"),
-      ("ne", "eq"), ("eq", "ne"), ("ge", "lt"), ("gt", "le"), ("le", "gt"), ("lt", "ge")] := by decide
+    ∀ p ∈ PV.Flatten.branchPairs, ∀ vals : List Int, vals.length = p.2.2 → sem.cond p.2.1 vals = !sem.cond p.1 vals := by
+  have e : PV.Flatten.branchPairs = [("eq", "ne", 2), ("ne", "eq", 2), ("lt", "ge", 2), ("le", "gt", 2), ("gt", "le", 2), ("ge", "lt", 2),
+      ("ne", "eq", 2), ("eq", "ne", 2), ("ge", "lt", 2), ("gt", "le", 2), ("le", "gt", 2), ("lt", "ge", 2), ("nez", "eqz", 1), ("eqz", "nez", 1)] := by decide
   rw [e]
-  have h' : ∀ c a b, sem.cond c [a, b] = (PV.Props.C01.icCond c a b).getD false := h
-  intro p hp x y
+  obtain ⟨h2, hz, hnz⟩ := h
+  intro p hp vals hlen
   simp only [List.mem_cons, List.mem_nil_iff, or_false] at hp
-  rcases hp with rfl | rfl | rfl | rfl | rfl | rfl | rfl | rfl | rfl | rfl | rfl | rfl <;>
-    simp only [h', PV.Props.C01.icCond, Option.getD_some] <;> rw [Bool.eq_iff_iff] <;> simp <;> omega
+  rcases hp with rfl | rfl | rfl | rfl | rfl | rfl | rfl | rfl | rfl | rfl | rfl | rfl | rfl | rfl
+  all_goals first
+    | (match vals, hlen with
+       | [x, y], _ => simp only [h2, PV.Props.C01.icCond, Option.getD_some]; rw [Bool.eq_iff_iff]; simp; try omega)
+    | (match vals, hlen with
+       | [x], _ => simp only [hz, hnz]; rw [Bool.eq_iff_iff]; simp)
 
 /-- the two together: a core program whose branches come from the real tables satisfies the hypothesis of the theorems -/
 theorem negOk_of_real_tables (sem : Sem Int) (h : LinCond sem) (p : Stmt Int) (hp : pairsOk PV.Flatten.branchPairs p = true) :
@@ -119,12 +126,13 @@ def intSem : Sem Int :=
 
 def demo : Stmt Int :=
   .seq (.alu 0 "add" [.num 0, .num 0])
-    (.while "lt" "ge" (.reg 0) (.num 3) (.seq (.alu 0 "add" [.reg 0, .num 1]) (.store "s" [.num (-7), .num 12, .reg 0])))
+    (.while "lt" "ge" [.reg 0, .num 3] (.seq (.alu 0 "add" [.reg 0, .num 1]) (.store "s" [.num (-7), .num 12, .reg 0])))
 
 example : NegOk intSem demo := by
   refine ⟨trivial, ?_, trivial, trivial⟩
-  intro x y
-  simp [intSem]
+  intro vals hv
+  match vals, hv with
+  | [x, y], _ => simp [intSem]
 
 /-- line numbers are representable in this value domain (the hypothesis `hlit` of the theorems) -/
 example : ∀ n : Nat, intSem.toAddr ((fun k => (k : Int)) n) = some n := by
